@@ -97,3 +97,207 @@ Proof.
   - apply diff_empty_iff. vm_compute. reflexivity.
   - intro H. apply diff_empty_iff in H. vm_compute in H. discriminate.
 Qed.
+
+(* ====================================================================================== *)
+(* The oracle's re-speller (harness/common/src/gener.rs: respell_table rules 1-6, respell_models;
+   Model/Respell.v) preserves the schema: both plans are empty.  Proofs/RespellP.v *)
+From VV.M1 Require Import Respell RespellP.
+From Coq Require Import Permutation Relation_Operators.
+
+(* one rewrite: same name, both spellings normalise, equivalent normal forms *)
+Theorem C07_respell_step_match : forall t t',
+  respell_step t t' -> (exists n, normalize t = Ok n) ->
+  t_name t = t_name t' /\ exists n n', normalize t = Ok n /\ normalize t' = Ok n' /\ table_equiv n n'.
+Proof. exact respell_step_match. Qed.
+Print Assumptions C07_respell_step_match.
+Check C07_respell_step_match : forall t t',
+  respell_step t t' -> (exists n, normalize t = Ok n) ->
+  t_name t = t_name t' /\ exists n n', normalize t = Ok n /\ normalize t' = Ok n'
+    /\ ((forall k, opt_rel col_equiv (col_named k n) (col_named k n'))
+        /\ incl (t_constraints n) (t_constraints n') /\ incl (t_constraints n') (t_constraints n)).
+
+(* whole model sets: any number of rewrites per table, then a shuffle of the tables *)
+Theorem C07_respell_equiv : forall A B,
+  respell_schema A B ->
+  (forall t, In t A -> exists n, normalize t = Ok n) ->
+  NoDup (map t_name A) ->
+  diff_actions A B = Ok [] /\ diff_actions B A = Ok [].
+Proof. exact respell_equiv. Qed.
+Print Assumptions C07_respell_equiv.
+Check C07_respell_equiv : forall A B,
+  (exists M, Forall2 (clos_refl_trans table_def respell_step) A M /\ Permutation M B) ->
+  (forall t, In t A -> exists n, normalize t = Ok n) ->
+  NoDup (map t_name A) ->
+  diff_actions A B = Ok [] /\ diff_actions B A = Ok [].
+
+(* ---------- one concrete, non-trivial instance per rewrite ---------- *)
+Definition rcol (n : string) : column_def := mkCol n (TSimple Integer) false None None None None None None.
+Definition both_empty (t t' : table_def) : Prop :=
+  t <> t' /\ diff_actions [t] [t'] = Ok [] /\ diff_actions [t'] [t] = Ok [].
+Ltac both_empty := split; [discriminate|split; vm_compute; reflexivity].
+
+(* 1a: composite inline key with auto_increment, a `false` marker elsewhere, another constraint present *)
+Example C07_ex_pk_to_table :
+  let cols := [set_pk (Some (PKObj true)) (rcol "a"); set_pk (Some (PKBool false)) (rcol "b");
+               set_pk (Some (PKBool true)) (rcol "c")] in
+  let t := mkTable "t" None cols [CUnique None ["b"]] in
+  let t' := mkTable "t" None [rcol "a"; set_pk (Some (PKBool false)) (rcol "b"); rcol "c"]
+                    [CUnique None ["b"]; CPrimaryKey true ["a"; "c"]] in
+  respell_step t t' /\ both_empty t t'.
+Proof.
+  cbv zeta. split; [|both_empty].
+  exact (RS_pk_to_table "t" None
+           [set_pk (Some (PKObj true)) (rcol "a"); set_pk (Some (PKBool false)) (rcol "b");
+            set_pk (Some (PKBool true)) (rcol "c")] [CUnique None ["b"]] eq_refl eq_refl).
+Qed.
+(* 1b: the key sits between two other constraints; mixed spellings of a non-auto key *)
+Example C07_ex_pk_to_inline :
+  let t := mkTable "t" None [rcol "a"; rcol "b"; rcol "c"]
+                   [CUnique None ["b"]; CPrimaryKey false ["a"; "c"]; CIndex None ["c"]] in
+  let t' := mkTable "t" None [set_pk (Some (PKBool true)) (rcol "a"); rcol "b"; set_pk (Some (PKObj false)) (rcol "c")]
+                    [CUnique None ["b"]; CIndex None ["c"]] in
+  respell_step t t' /\ both_empty t t'.
+Proof.
+  cbv zeta. split; [|both_empty].
+  refine (RS_pk_to_inline "t" None [rcol "a"; rcol "b"; rcol "c"]
+            [set_pk (Some (PKBool true)) (rcol "a"); rcol "b"; set_pk (Some (PKObj false)) (rcol "c")]
+            [CUnique None ["b"]] [CIndex None ["c"]] false ["a"; "c"]
+            eq_refl eq_refl eq_refl eq_refl eq_refl _ _); [discriminate|].
+  repeat constructor; cbn; eauto.
+Qed.
+(* 2: unique inline -> table level next to a NAMED group on the same column *)
+Example C07_ex_unique_to_table :
+  let b := set_unique (Some (SBool true)) (rcol "b") in
+  let t := mkTable "t" None ([rcol "a"] ++ b :: [rcol "c"]) [CUnique (Some "n") ["b"]] in
+  let t' := mkTable "t" None [rcol "a"; rcol "b"; rcol "c"] [CUnique (Some "n") ["b"]; CUnique None ["b"]] in
+  respell_step t t' /\ both_empty t t'.
+Proof.
+  cbv zeta. split; [|both_empty].
+  refine (RS_key_to_table KUnique "t" None [rcol "a"] (set_unique (Some (SBool true)) (rcol "b")) [rcol "c"]
+            [CUnique (Some "n") ["b"]] eq_refl _ _).
+  - intros [H|[]]. discriminate.
+  - intros x [<-|[<-|[]]] [].
+Qed.
+(* 2: index table level -> inline, another column carries a composite named index *)
+Example C07_ex_index_to_inline :
+  let a := set_index (Some (SStr "ix")) (rcol "a") in
+  let c := set_index (Some (SArr ["ix"; "iy"])) (rcol "c") in
+  let t := mkTable "t" None ([a] ++ rcol "b" :: [c]) ([CIndex (Some "m") ["b"]] ++ CIndex None ["b"] :: []) in
+  let t' := mkTable "t" None [a; set_index (Some (SBool true)) (rcol "b"); c] [CIndex (Some "m") ["b"]] in
+  respell_step t t' /\ both_empty t t'.
+Proof.
+  cbv zeta. split; [|both_empty].
+  refine (RS_key_to_inline KIndex "t" None [set_index (Some (SStr "ix")) (rcol "a")] (rcol "b")
+            [set_index (Some (SArr ["ix"; "iy"])) (rcol "c")] [CIndex (Some "m") ["b"]] [] eq_refl _ eq_refl _).
+  - intros [H|[]]. discriminate.
+  - intros x [<-|[<-|[]]]; cbn; intuition discriminate.
+Qed.
+Example C07_ex_key_drop_false :
+  let b := set_unique (Some (SBool false)) (rcol "b") in
+  let t := mkTable "t" None ([rcol "a"] ++ b :: []) [] in
+  let t' := mkTable "t" None [rcol "a"; rcol "b"] [] in
+  respell_step t t' /\ both_empty t t'.
+Proof.
+  cbv zeta. split; [|both_empty]. exact (RS_key_drop_false KUnique "t" None [rcol "a"] (set_unique (Some (SBool false)) (rcol "b")) [] [] eq_refl).
+Qed.
+(* 3: object spelling with actions -> reference spelling; string spelling -> table level *)
+Example C07_ex_fk_respell :
+  let b := set_fk (Some (FKObj "u" ["id"] (Some Cascade) None)) (rcol "b") in
+  let t := mkTable "t" None ([rcol "a"] ++ b :: []) [CForeignKey (Some "nm") ["a"] "u" ["id"] None None] in
+  let t' := mkTable "t" None [rcol "a"; set_fk (Some (FKRef "u.id" (Some Cascade) None)) (rcol "b")]
+                    [CForeignKey (Some "nm") ["a"] "u" ["id"] None None] in
+  respell_step t t' /\ both_empty t t'.
+Proof.
+  cbv zeta. split; [|both_empty].
+  refine (RS_fk_respell "t" None [rcol "a"] (set_fk (Some (FKObj "u" ["id"] (Some Cascade) None)) (rcol "b")) []
+            [CForeignKey (Some "nm") ["a"] "u" ["id"] None None] (FKObj "u" ["id"] (Some Cascade) None)
+            (FKRef ("u" +++ "." +++ "id") (Some Cascade) None)
+            "u" ["id"] (Some Cascade) None eq_refl eq_refl eq_refl eq_refl _).
+  apply (FR_ref "u" ["id"] (Some Cascade) None "id" eq_refl).
+  repeat split; discriminate.
+Qed.
+Example C07_ex_fk_to_table :
+  let b := set_fk (Some (FKStr "u.id")) (rcol "b") in
+  let t := mkTable "t" None ([rcol "a"] ++ b :: []) [CForeignKey (Some "nm") ["a"] "u" ["id"] None None] in
+  let t' := mkTable "t" None [rcol "a"; rcol "b"]
+                    [CForeignKey (Some "nm") ["a"] "u" ["id"] None None; CForeignKey None ["b"] "u" ["id"] None None] in
+  respell_step t t' /\ both_empty t t'.
+Proof.
+  cbv zeta. split; [|both_empty].
+  exact (RS_fk_to_table "t" None [rcol "a"] (set_fk (Some (FKStr "u.id")) (rcol "b")) []
+           [CForeignKey (Some "nm") ["a"] "u" ["id"] None None] (FKStr "u.id") "u" ["id"] None None
+           eq_refl eq_refl eq_refl eq_refl).
+Qed.
+(* 4: a negative integer literal as a string *)
+Example C07_ex_default :
+  let b := set_default (Some (DInt (-12))) (rcol "b") in
+  let t := mkTable "t" None ([rcol "a"] ++ b :: []) [] in
+  let t' := mkTable "t" None [rcol "a"; set_default (Some (DStr "-12")) (rcol "b")] [] in
+  respell_step t t' /\ both_empty t t'.
+Proof.
+  cbv zeta. split; [|both_empty].
+  exact (RS_default "t" None [rcol "a"] (set_default (Some (DInt (-12))) (rcol "b")) [] [] (DInt (-12)) _
+           eq_refl (DR_int (-12))).
+Qed.
+(* 5 *)
+Example C07_ex_int_enum :
+  let b := set_type (TEnum "e" (EVInteger [mkNum "x" 1; mkNum "y" 2])) (rcol "b") in
+  let t := mkTable "t" None ([] ++ b :: []) [] in
+  let t' := mkTable "t" None [set_type (TEnum "e_renamed" (EVInteger [mkNum "x_x" 1; mkNum "y_x" 2])) (rcol "b")] [] in
+  respell_step t t' /\ both_empty t t'.
+Proof.
+  cbv zeta. split; [|both_empty].
+  exact (RS_int_enum "t" None [] (set_type (TEnum "e" (EVInteger [mkNum "x" 1; mkNum "y" 2])) (rcol "b")) [] []
+           "e" [mkNum "x" 1; mkNum "y" 2] "e_renamed" [mkNum "x_x" 1; mkNum "y_x" 2] eq_refl eq_refl eq_refl).
+Qed.
+(* 6 *)
+Example C07_ex_perm :
+  let t := mkTable "t" None [rcol "a"] [CUnique None ["a"]; CIndex None ["a"]] in
+  let t' := mkTable "t" None [rcol "a"] [CIndex None ["a"]; CUnique None ["a"]] in
+  respell_step t t' /\ both_empty t t'.
+Proof. cbv zeta. split; [|both_empty]. apply RS_perm, perm_swap. Qed.
+(* schema level: two rewrites of one table, the other table untouched, tables swapped *)
+Example C07_ex_respell_schema :
+  let u := mkTable "u" None [set_pk (Some (PKBool true)) (rcol "id")] [] in
+  let p := mkTable "p" None ([rcol "id"] ++ set_fk (Some (FKStr "u.id")) (rcol "uid") :: []) [] in
+  let p1 := mkTable "p" None [rcol "id"; set_fk (Some (FKObj "u" ["id"] None None)) (rcol "uid")] [] in
+  let p2 := mkTable "p" None [rcol "id"; rcol "uid"] [CForeignKey None ["uid"] "u" ["id"] None None] in
+  respell_schema [u; p] [p2; u]
+  /\ (forall t, In t [u; p] -> exists n, normalize t = Ok n) /\ NoDup (map t_name [u; p]).
+Proof.
+  cbv zeta. split; [|split].
+  - exists [mkTable "u" None [set_pk (Some (PKBool true)) (rcol "id")] [];
+            mkTable "p" None [rcol "id"; rcol "uid"] [CForeignKey None ["uid"] "u" ["id"] None None]].
+    split; [|apply perm_swap]. constructor; [apply rt_refl|constructor; [|constructor]].
+    eapply rt_trans; apply rt_step.
+    + refine (RS_fk_respell "p" None [rcol "id"] (set_fk (Some (FKStr "u.id")) (rcol "uid")) [] []
+                (FKStr "u.id") (FKObj "u" ["id"] None None)
+                "u" ["id"] None None eq_refl eq_refl eq_refl eq_refl _). apply FR_obj.
+    + exact (RS_fk_to_table "p" None [rcol "id"] (set_fk (Some (FKObj "u" ["id"] None None)) (rcol "uid")) [] []
+               (FKObj "u" ["id"] None None) "u" ["id"] None None eq_refl eq_refl eq_refl eq_refl).
+  - intros t [<-|[<-|[]]]; eexists; vm_compute; reflexivity.
+  - repeat constructor; cbn; intuition discriminate.
+Qed.
+
+(* ---------- corners where the Rust guards of the re-speller are NOT sufficient (excluded above by the
+   hypotheses marked "tightening" in Model/Respell.v) ---------- *)
+(* rule 2, inline -> table level, two columns of one name (no `count == 1` guard on that arm) *)
+Example C07_respell_key_dupcol_refuted :
+  let c := mkCol "a" (TSimple Integer) false None None None (Some (SBool true)) None None in
+  diff_actions [mkTable "t" None [c; c] []] [mkTable "t" None [set_unique None c; c] [CUnique None ["a"]]]
+  = Ok [RemoveConstraint "t" (CUnique None ["a"; "a"]); AddConstraint "t" (CUnique None ["a"])].
+Proof. vm_compute. reflexivity. Qed.
+(* rule 2, either direction: another column names its group "__auto_a" *)
+Example C07_respell_key_autoname_refuted :
+  let a := mkCol "a" (TSimple Integer) false None None None (Some (SBool true)) None None in
+  let b := mkCol "b" (TSimple Integer) false None None None (Some (SStr "__auto_a")) None None in
+  diff_actions [mkTable "t" None [a; b] []] [mkTable "t" None [set_unique None a; b] [CUnique None ["a"]]]
+  = Ok [RemoveConstraint "t" (CUnique None ["a"; "b"]); AddConstraint "t" (CUnique None ["a"]);
+        AddConstraint "t" (CUnique None ["b"])].
+Proof. vm_compute. reflexivity. Qed.
+(* rule 1b, a key constraint without columns *)
+Example C07_respell_pk_empty_refuted :
+  let c := mkCol "a" (TSimple Integer) false None None None None None None in
+  diff_actions [mkTable "t" None [c] [CPrimaryKey false []]] [mkTable "t" None [c] []]
+  = Ok [RemoveConstraint "t" (CPrimaryKey false [])].
+Proof. vm_compute. reflexivity. Qed.
